@@ -268,6 +268,24 @@ struct C14 : Scenario {
                 if (a.ok && !matched) { o.hints["only"] = nm; o.fail("C14.repeated_signals", "run with signals at [" + nm + "] equals none of the runs with a single one of them"); }
             }
         }
+        // informational probe (never a verdict; the property does not speak about clocks): a backwards jump of the wall clock
+        // before the report. Display::printText drops a message when now - lastmessage < silentTime, so the final
+        // "Aborted." can vanish from log and stdout when the clock steps back (simulated clock seam).
+        if (only.empty() && !o.infra && x.H > 10) {
+            Cfg c = x.cfg; c.output = "J.h5";
+            Launch l = base_launch(x, c, "J");
+            l.rt.sigint_points = {x.H / 2};
+            l.rt.clock_jump_at = 3; l.rt.clock_jump_ms = 0;          // dry: count clock reads
+            LaunchResult r0 = run_launch(l); x.nlaunch++;
+            long reads = r0.sumi("clock_reads");
+            if (reads > 4) {
+                l.rt.clock_jump_at = reads - 1; l.rt.clock_jump_ms = -3600 * 1000;   // one hour back, right before the last message
+                LaunchResult r = run_launch(l); x.nlaunch++;
+                o.fault("clock_jump_backwards");
+                bool lost = r.exited && r.code == 0 && !log_has(r.out, "Aborted.") && !log_has(r.out, "Finished.");
+                o.probe(lost ? "info.clock_jump_backwards.final_message_lost" : "info.clock_jump_backwards.final_message_kept");
+            }
+        }
         o.launches = x.nlaunch;
         o.simsteps = launch_stats().steps;
         o.shape = "H" + std::to_string(x.H) + "W" + std::to_string(x.W);
